@@ -74,6 +74,7 @@ class SkelTr:
         self.props = {n.name for n in self.own.values()
                       if any(isinstance(d, ast.Name) and d.id == "property" for d in n.decorator_list)}
         self.helpers: list[str] = []
+        self.loops: list[tuple[str, str]] = []      # (text of `continue`, text of `break`) of the enclosing loops
         self.nhelp = 0
 
     # ---- resolution ------------------------------------------------------------------------------------
@@ -119,6 +120,12 @@ class SkelTr:
             return f"(!{self.bexpr(e.operand, locs)})"
         if isinstance(e, ast.Name) and e.id in locs:
             return e.id
+        if isinstance(e, ast.BoolOp) and len(e.values) == 2:
+            # short-circuit: the right operand (it may be a call) is evaluated only when the left one does not decide
+            a, b = self.bexpr(e.values[0], locs), self.bexpr(e.values[1], locs)
+            if isinstance(e.op, ast.Or):
+                return f"(← (if {a} then pure true else (do pure {b})))"
+            return f"(← (if {a} then (do pure {b}) else pure false))"
         if isinstance(e, ast.Compare) and len(e.ops) == 1 and isinstance(e.comparators[0], ast.Constant) \
                 and e.comparators[0].value is None and isinstance(e.ops[0], (ast.Is, ast.IsNot)):
             a = self.self_attr(e.left)
@@ -173,14 +180,28 @@ class SkelTr:
                         out.append(f"{ind}call \"ret {mname}" + (f" {v}" if v in ("true", "false") else "") + "\"")
                     out.append(f"{ind}pure {v}")
                 return out
+            if isinstance(s, ast.Break):
+                if not self.loops:
+                    raise Untranslatable("`break` outside a loop")
+                out.append(f"{ind}{self.loops[-1][1]}")
+                return out
+            if isinstance(s, ast.Continue):
+                if not self.loops:
+                    raise Untranslatable("`continue` outside a loop")
+                out.append(f"{ind}{self.loops[-1][0]}")
+                return out
             if isinstance(s, (ast.If, ast.For, ast.While, ast.Match)):
-                # bind the rest of the block once
+                # bind the rest of the block once - as a function of the locals the statement may assign
                 if any(not (self.is_log(r) or isinstance(r, ast.Pass)) for r in rest):
                     self.nhelp += 1
                     kn = f"k{self.nhelp}"
-                    out.append(f"{ind}let {kn} : M {ret} := do")
+                    vs = sorted(self.assigned(s) & locs)
+                    if vs:
+                        out.append(f"{ind}let {kn} : {' → '.join(['Bool'] * len(vs))} → M {ret} := fun {' '.join(vs)} => do")
+                    else:
+                        out.append(f"{ind}let {kn} : M {ret} := do")
                     out += self.blk(rest, k, ind + "  ", ret, locs, mname)
-                    knext = kn
+                    knext = kn + "".join(" " + v for v in vs)
                 else:
                     knext = k
                 out += self.compound(s, knext, ind, ret, locs, mname)
@@ -191,9 +212,16 @@ class SkelTr:
         out.append(f"{ind}{k}")
         return out
 
+    @staticmethod
+    def assigned(s: ast.stmt) -> set[str]:
+        return {t.id for n in ast.walk(s) if isinstance(n, ast.Assign) for t in n.targets if isinstance(t, ast.Name)}
+
     def simple(self, s: ast.stmt, ind: str, locs: set[str]) -> list[str]:
         if isinstance(s, ast.Assign) and len(s.targets) == 1:
             t = s.targets[0]
+            if isinstance(t, ast.Name) and isinstance(s.value, ast.Constant) and isinstance(s.value.value, bool):
+                locs.add(t.id)
+                return [f"{ind}let {t.id} := {'true' if s.value.value else 'false'}"]
             a = self.self_attr(t)
             if a is not None and a in self.spec.get("bool_fields", {}):
                 return [f"{ind}modify fun w => {{ w with {self.spec['bool_fields'][a]} := {self.bexpr(s.value, locs)} }}"]
@@ -256,12 +284,26 @@ class SkelTr:
                 raise Untranslatable(f"`while` in {mname} without a declared fuel")
             self.nloop += 1
             h = f"{mname}_while{self.nloop}"
-            body = self.blk(s.body, f"{h} cfg k fuel", "      ", ret, set(locs), mname)
-            self.helpers.append(
-                f"/-- the `while` loop of `{mname}` (fuel: an upper bound of the iterations; `none` when exhausted) -/\n"
-                f"def {h} (cfg : Cfg) (k : M {ret}) : Nat → M {ret}\n  | 0 => failure\n  | fuel + 1 => do\n"
-                f"    if {self.bexpr(s.test, locs)} then do\n" + "\n".join(body) + "\n    else do\n      k")
-            out.append(f"{ind}{h} cfg ({k}) ({fuel})")
+            vs = sorted(self.assigned(s) & locs)            # locals carried from one iteration to the next
+            args = "".join(" " + v for v in vs)
+            again, leave = f"{h} cfg k fuel{args}", f"k{args}"
+            self.loops.append((again, leave))
+            always = isinstance(s.test, ast.Constant) and s.test.value is True
+            body = self.blk(s.body, again, "    " if always else "      ", ret, set(locs), mname)
+            self.loops.pop()
+            kty = " → ".join(["Bool"] * len(vs) + [f"M {ret}"])
+            pat0 = "".join(", _" for _ in vs)
+            pat1 = "".join(", " + v for v in vs)
+            head = (f"/-- the `while` loop of `{mname}` (fuel: an upper bound of the iterations; `none` when exhausted)"
+                    + (f"; carried from one iteration to the next: {', '.join(vs)}" if vs else "") + " -/\n"
+                    f"def {h} (cfg : Cfg) (k : {kty}) : Nat → {kty}\n  | 0{pat0} => failure\n  | fuel + 1{pat1} => do\n")
+            if always:
+                self.helpers.append(head + "\n".join(body))
+            else:
+                self.helpers.append(head + f"    if {self.bexpr(s.test, locs)} then do\n" + "\n".join(body) +
+                                    f"\n    else do\n      {leave}")
+            kfun = f"(fun{args} => {k})" if vs else f"({k})"
+            out.append(f"{ind}{h} cfg {kfun} ({fuel}){args}")
             return out
         if isinstance(s, ast.Match):
             q = self.spec.get("queue", {})
@@ -364,6 +406,13 @@ CONTROL_SPEC = dict(
     queue={"_web_api_server.has_commands": "hasCmds", "_web_api_server.receive_command": "recv"},
     enums={"ControlCommands": {"PAUSE": ".pause", "RESUME": ".resume", "SHUTDOWN": ".shutdown", "SAVE_STATE": ".save"}},
     fuel={"process_received_web_api_commands": "(← get).cmds.length + 1"},
+)
+
+HANDLER_SPEC = dict(
+    rel="thread/thread_control.py", cls="ControllerCommandHandler", bases=[],
+    collaborators={"_controller"}, callables={"on_paused", "on_resumed"},
+    # every iteration of the loop in `stop_if_pause` takes at least one answer (the wait)
+    fuel={"stop_if_pause": "(← get).ans.length + 1"},
 )
 
 if __name__ == "__main__":
